@@ -22,6 +22,10 @@ def decEntry (s : String) : Path × Val :=
   match s.splitOn "/" with
   | ["L", p, b] => (decStrs p, .leaf (decStrs b))
   | ["D", p] => (decStrs p, .dict)
+  | ["M", p, items] =>
+    -- a splicer_code list with YAML nulls: items joined by '&', "n" = None, "s<str>" = string
+    (decStrs p, .leaf (codeLines (if items == "E" then [] else
+      (items.splitOn "&").map (fun t => if t == "n" then none else some (decStr (t.drop 1).toString)))))
   | _ => ([], .dict)
 
 def decDict (s : String) : Dict :=
